@@ -5,6 +5,7 @@ import (
 	"context"
 	"fmt"
 	"net"
+	"os"
 	"strings"
 	"sync"
 	"syscall"
@@ -45,6 +46,39 @@ type discCase struct {
 	// the same address and port. Whether it is refused or not, the discovery returns the controllers that answered.
 	FixedPort bool `json:"fixed_bind_port,omitempty"`
 	Rival     bool `json:"rival_socket_on_bind_port,omitempty"`
+	// socket layer: ListenerState - the same client's event listener has been started and stopped before the discovery (1), or is
+	// running during it (2); HostSender - the replies of sender 1 come from one of this host's own interface addresses (a
+	// simulator or a port-forwarded controller on the same machine) instead of a loopback address
+	ListenerState int  `json:"listener_state,omitempty"`
+	HostSender    bool `json:"sender_on_host_address,omitempty"`
+}
+
+type quietListener struct{}
+
+func (quietListener) OnConnected()          {}
+func (quietListener) OnEvent(*types.Status) {}
+func (quietListener) OnError(error) bool    { return true }
+
+func hostIPs() [][4]byte {
+	var out [][4]byte
+	ifs, err := net.Interfaces()
+	if err != nil {
+		return nil
+	}
+	for _, i := range ifs {
+		if i.Flags&net.FlagUp == 0 || i.Flags&net.FlagLoopback != 0 {
+			continue
+		}
+		addrs, _ := i.Addrs()
+		for _, a := range addrs {
+			if n, ok := a.(*net.IPNet); ok {
+				if v4 := n.IP.To4(); v4 != nil {
+					out = append(out, [4]byte{v4[0], v4[1], v4[2], v4[3]})
+				}
+			}
+		}
+	}
+	return out
 }
 
 // rivalSocket binds a UDP socket with SO_REUSEADDR to ip:port (nil if the operating system refuses).
@@ -242,7 +276,14 @@ func runSocket(c discCase, scale int) *rp.Fail {
 	defer f.Close()
 	var extra []*farm.UDP
 	for i := 0; i < 3; i++ {
-		e, err := f.UDP([4]byte{127, 0, 4, byte(1 + i)}, 0, nil)
+		ip := [4]byte{127, 0, 4, byte(1 + i)}
+		if i == 0 && c.HostSender {
+			if ips := hostIPs(); len(ips) > 0 {
+				ip = ips[0]
+				ev.Class("socket/replies-from-one-of-the-host's-own-interface-addresses", 1)
+			}
+		}
+		e, err := f.UDP(ip, 0, nil)
 		if err != nil {
 			ev.HarnessError("farm: %v", err)
 			return nil
@@ -311,7 +352,36 @@ func runSocket(c discCase, scale int) *rp.Fail {
 			cfg.BindPort, bindPort = p, p
 		}
 	}
+	if c.ListenerState != 0 {
+		if lp, err := farm.FreePort([4]byte{127, 0, 0, 1}); err == nil {
+			cfg.HasListen, cfg.ListenIP, cfg.ListenPort = true, [4]byte{127, 0, 0, 1}, lp
+		}
+	}
 	u := hook.Real(cfg)
+	if c.ListenerState != 0 && cfg.HasListen {
+		q := make(chan os.Signal, 1)
+		done := make(chan struct{})
+		go func() {
+			defer close(done)
+			defer func() { recover() }()
+			u.Listen(quietListener{}, q)
+		}()
+		time.Sleep(30 * time.Millisecond)
+		stop := func() {
+			q <- os.Interrupt
+			select {
+			case <-done:
+			case <-time.After(3 * time.Second):
+			}
+		}
+		if c.ListenerState == 1 {
+			stop()
+			ev.Class("socket/discovery-after-the-client's-listener-was-stopped", 1)
+		} else {
+			defer stop()
+			ev.Class("socket/discovery-while-the-client's-listener-is-running", 1)
+		}
+	}
 	var list []types.Device
 	var pn any
 	func() {
@@ -399,6 +469,8 @@ func genCase(layer string) func(t *rapid.T) discCase {
 		if layer == "socket" {
 			c.FixedPort = rapid.IntRange(0, 3).Draw(t, "fixed.port") == 0
 			c.Rival = rapid.IntRange(0, 5).Draw(t, "rival") == 0
+			c.ListenerState = rapid.SampledFrom([]int{0, 0, 1, 2}).Draw(t, "listener.state")
+			c.HostSender = rapid.IntRange(0, 2).Draw(t, "host.sender") == 0
 		}
 		l := spec.Responses["GetDevices"]
 		n := rapid.IntRange(0, 12).Draw(t, "datagrams")
